@@ -4,6 +4,7 @@ package manager
 // Not schedule-driven: a small scenario whose only purpose is to make these goroutines overlap under -race.
 
 import (
+	"encoding/json"
 	"net"
 	"net/http"
 	"net/http/httptest"
@@ -64,7 +65,33 @@ func TestVerifEndpoints(t *testing.T) {
 	defer hook.Close()
 	events, closer := s.mgr.Listen()
 	go func() {
-		for range events {
+		// like the websocket handler: every event is encoded after it was received
+		for e := range events {
+			json.Marshal(e)
+		}
+	}()
+	// request goroutines: what the GET handlers do (list, then encode the answer), all the time
+	stopLists := make(chan struct{})
+	listsDone := make(chan struct{})
+	go func() {
+		defer close(listsDone)
+		for {
+			select {
+			case <-stopLists:
+				return
+			default:
+			}
+			hooks := s.mgr.ListPcapProcessorWebhooks()
+			eps := s.mgr.ListPcapOverIPEndpoints()
+			tags := s.mgr.ListTags()
+			convs := s.mgr.ListConverters()
+			pcaps := s.mgr.KnownPcaps()
+			time.Sleep(time.Millisecond)
+			json.Marshal(hooks)
+			json.Marshal(eps)
+			json.Marshal(tags)
+			json.Marshal(convs)
+			json.Marshal(pcaps)
 		}
 	}()
 	if err := s.mgr.AddPcapProcessorWebhook(hook.URL); err != nil {
@@ -168,9 +195,16 @@ func TestVerifEndpoints(t *testing.T) {
 		s.mgr.UpdateTag("mark/c", UpdateTagOperationSetConverter([]string{keep, other}))
 		s.mgr.UpdateTag("mark/c", UpdateTagOperationMarkAddStream([]uint64{2}))
 		s.mgr.UpdateTag("mark/c", UpdateTagOperationMarkDelStream([]uint64{2}))
+		// the cache of a converter is reset (API call; the same happens when its executable changes) while converter
+		// jobs start, run and complete
+		s.mgr.ResetConverter(keep)
+		time.Sleep(time.Duration(i%7) * 3 * time.Millisecond)
+		s.mgr.ResetConverter(other)
 	}
 	close(stop)
 	<-readerDone
+	close(stopLists)
+	<-listsDone
 	closer()
 	s.close()
 }
